@@ -665,6 +665,8 @@ class FnFlow:
             rc = ('void',)
         if rc[0] != 'restart':
             self.check_exit(W, loc, rc)
+        else:
+            self.check_retired(W, loc, restart=True)
         if self.record or True:
             self.exits.append((rc, W.frozen(), loc))
         return [W]
@@ -683,11 +685,16 @@ class FnFlow:
         if failed and not (rc == ('bool', False)):
             self.ob('LOCK-1b', loc, 'return-after-failed-validation', False,
                     'a result other than restart/false is returned on a path on which the validation of a read section passed in by the caller has just failed')
-        # LOCK-5(i): everything retired by this operation was obsoleted first
+        self.check_retired(W, loc, restart=False)
+
+    def check_retired(self, W, loc, restart):
+        # LOCK-5(i): everything retired by this operation was obsoleted first (also on restart paths: a node retired
+        # and then abandoned by a restart is still linked into the tree)
         for x in W.sel('Retired'):
             ok = any(W.canon(y[1]) & W.canon(x[1]) for y in W.sel('Obs')) or not W.canon(x[1])
-            self.ob('LOCK-5a', loc, 'retire:%s' % self.tname(x[1]), ok,
-                    '%s is handed to reclamation on this path without having been unlocked-and-obsoleted by this operation: concurrent readers holding a section on it would not be told to restart' % self.tname(x[1]))
+            self.ob('LOCK-5a', loc, 'retire:%s%s' % (self.tname(x[1]), ':restart' if restart else ''), ok,
+                    ('%s is handed to reclamation on a path that then RESTARTS the operation without having unlocked-and-obsoleted it: the node is still linked into the tree, it will be freed while reachable and retired again by the retry' if restart else
+                     '%s is handed to reclamation on this path without having been unlocked-and-obsoleted by this operation: concurrent readers holding a section on it would not be told to restart') % self.tname(x[1]))
 
     def own_sections(self):
         """section variables declared locally (parameters belong to the caller, which validates them)"""
@@ -834,6 +841,11 @@ class FnFlow:
                 if d[0] == 'var' and self.vkind.get(d[1]) == 'node' and norm_type(self._type_of(a))[0] == NODEPTR:
                     if tg.sig in self.an.derefs_param:
                         self.deref_sink(W, d[1], loc, 'passed to %s()' % nm)
+        # ---- a reclaiming owner is created for an existing node: the node is handed to reclamation (at scope exit)
+        if nm in wsum.RETIRE and args and 'qsbr' in ((f.callee_sig(e) or '') + (e.get('t') or '') + (e.get('callee') or '')):
+            d = self.desc(args[0], W)
+            if d[0] == 'var' and self.vkind.get(d[1]) in ('node', 'uptr'):
+                W.add('Retired', ('n', d[1]))
         # ---- effect summaries: writes / retires performed by the callee
         self.apply_effects(W, e, tg)
         return [W]
